@@ -1,12 +1,14 @@
 /- JSON line driver: one case per line in, one result per line out. -/
 import Gin.Drv.Selmap
 import Gin.Drv.GinDom
+import Gin.Drv.ScopesDom
 open Lean Gin.Drv
 
 def handle (j : Json) : Json :=
   match jstr (jfield j "dom") with
   | "selmap" => Gin.Drv.Selmap.run j
   | "gin" => Gin.Drv.GinDom.run j
+  | "scopes" => Gin.Drv.ScopesDom.run j
   | d => Json.mkObj [("error", Json.str s!"unknown domain {d}")]
 
 partial def loop (hin : IO.FS.Stream) (hout : IO.FS.Stream) : IO Unit := do
